@@ -173,7 +173,10 @@ class _ULEB128Encoder(_StandaloneEncoder[int]):
     def decode(
         self, io: BinaryIO, byteorder: ByteOrder, ptr_size: int
     ) -> Tuple[int, int]:
-        return leb128.u.decode_reader(io)
+        try:
+            return leb128.u.decode_reader(io)
+        except EOFError as err:
+            raise ValueError("unexpected end of data") from err
 
     def validate(self, value: int, ptr_size: Optional[int]):
         if value < 0:
@@ -189,7 +192,10 @@ class _SLEB128Encoder(_StandaloneEncoder[int]):
     def decode(
         self, io: BinaryIO, byteorder: ByteOrder, ptr_size: int
     ) -> Tuple[int, int]:
-        return leb128.i.decode_reader(io)
+        try:
+            return leb128.i.decode_reader(io)
+        except EOFError as err:
+            raise ValueError("unexpected end of data") from err
 
 
 class _IntEncoder(_StandaloneEncoder[int]):
@@ -205,7 +211,7 @@ class _IntEncoder(_StandaloneEncoder[int]):
     ) -> Tuple[int, int]:
         return (
             int.from_bytes(
-                io.read(self.byte_size), byteorder, signed=self.signed
+                _read_exact(io, self.byte_size), byteorder, signed=self.signed
             ),
             self.byte_size,
         )
@@ -238,7 +244,9 @@ class _UIntPtrEncoder(_StandaloneEncoder[int]):
         self, io: BinaryIO, byteorder: ByteOrder, ptr_size: int
     ) -> Tuple[int, int]:
         return (
-            int.from_bytes(io.read(ptr_size), byteorder, signed=False),
+            int.from_bytes(
+                _read_exact(io, ptr_size), byteorder, signed=False
+            ),
             ptr_size,
         )
 
@@ -252,6 +260,16 @@ class _UIntPtrEncoder(_StandaloneEncoder[int]):
                 raise ValueError(
                     f"value cannot fit in {ptr_size}-byte unsigned integer"
                 )
+
+
+def _read_exact(io: BinaryIO, size: int) -> bytes:
+    """
+    Reads exactly size bytes, raising a ValueError if the input is too short.
+    """
+    data = io.read(size)
+    if len(data) != size:
+        raise ValueError("unexpected end of data")
+    return data
 
 
 def _int_domain(bit_size: int, signed: bool) -> range:
